@@ -4,6 +4,7 @@ import (
 	"bytes"
 	"context"
 	"fmt"
+	"io"
 	"math/bits"
 	"strings"
 	"sync"
@@ -529,6 +530,9 @@ func c07Enumerate(w *Worker) {
 
 func c07Live(r *Run) {
 	const P = "C07"
+	// a corrupted segment makes the receiver abort: panics of the Close protocol racing with senders
+	// are C16's business (one is a known finding there) and are not judged under C07
+	r.PanicProperty = ""
 	T := r.T
 	v := primitive.ProtocolVersion5
 	comp := []primitive.Compression{primitive.CompressionNone, primitive.CompressionLz4}[T.Draw("compression", 2)]
@@ -808,3 +812,139 @@ func minInt(a, b int) int {
 }
 
 var _ = frame.NewFrame
+
+// ---------- shared: a segment codec shared by two tasks (C18 says it may be), chunked arrival ----------
+//
+// Task A decodes an ALTERED segment whose bytes arrive in pieces (the reader is a scheduling point
+// between pieces), task B decodes intact segments on the same codec instance in the meantime. A must
+// still reject: nothing another user of the codec does may turn a corrupted segment into an accepted one.
+
+func init() {
+	Register(&Scenario{Name: "shared", Property: "C07", Body: c07Shared})
+	pd := props["C07"]
+	prev := pd.Case
+	pd.Case = func(w *Worker, i int) {
+		prev(w, i)
+		w.Exec(RunSpec{Scenario: "shared", Index: i})
+	}
+}
+
+// yieldingReader hands out its bytes in drawn pieces and is a scheduling point before every piece.
+type yieldingReader struct {
+	r    *Run
+	data []byte
+	off  int
+	cuts []int
+}
+
+func (y *yieldingReader) Read(p []byte) (int, error) {
+	y.r.Yield("c07.shared.read")
+	if y.off >= len(y.data) {
+		return 0, io.EOF
+	}
+	n := len(p)
+	if n > len(y.data)-y.off {
+		n = len(y.data) - y.off
+	}
+	for _, c := range y.cuts {
+		if c > y.off && c < y.off+n {
+			n = c - y.off
+			break
+		}
+	}
+	copy(p, y.data[y.off:y.off+n])
+	y.off += n
+	return n, nil
+}
+
+func c07Shared(r *Run) {
+	const P = "C07"
+	T := r.T
+	lz4On := T.Bool("lz4", 0.5)
+	codec := c07Codec(lz4On)
+	mk := func(site string) *c07Seg {
+		seg, err := c07Encode(lz4On, c07Payload(1+T.Draw(site+".kind", 2), 1+T.Draw(site+".size", 300), uint64(T.Draw(site+".seed", 1000))), T.Bool(site+".self", 0.5))
+		if err != nil {
+			return nil
+		}
+		return seg
+	}
+	victim := mk("victim")
+	if victim == nil {
+		return
+	}
+	hdrBytes := victim.hdrBits / 8
+	// alteration inside the guaranteed range: 1..7 header+CRC24 bits, or 1-2 payload bits
+	alt := append([]byte(nil), victim.wire...)
+	desc := ""
+	if T.Bool("region.header", 0.7) {
+		n := 1 + T.Draw("nflips", 7)
+		seen := map[int]bool{}
+		for k := 0; k < n; k++ {
+			b := T.Draw("bit", victim.hdrBits)
+			for seen[b] { // next free bit: a replayed (zeroed) tape must not loop forever
+				b = (b + 1) % victim.hdrBits
+			}
+			seen[b] = true
+			alt[b/8] ^= 1 << uint(b%8)
+		}
+		desc = fmt.Sprintf("%d header/CRC24 bit flips", n)
+	} else {
+		bodyBits := (len(alt) - hdrBytes) * 8
+		b1 := T.Draw("pbit1", bodyBits)
+		alt[hdrBytes+b1/8] ^= 1 << uint(b1%8)
+		desc = fmt.Sprintf("payload bit flip at %d", b1)
+	}
+	if bytes.Equal(alt, victim.wire) {
+		return
+	}
+	r.Config["lz4"] = fmt.Sprint(lz4On)
+	r.Config["alteration"] = desc
+	// the intact traffic of the other user: same header prefix as the victim (the interesting case) or not
+	var others []*c07Seg
+	nOthers := 1 + T.Draw("others", 3)
+	for i := 0; i < nOthers; i++ {
+		if T.Bool("same", 0.6) {
+			others = append(others, victim)
+		} else if s := mk(fmt.Sprintf("other%d", i)); s != nil {
+			others = append(others, s)
+		}
+	}
+	var cuts []int
+	for i := 0; i < 1+T.Draw("ncuts", 4); i++ {
+		cuts = append(cuts, 1+T.Draw("cut", hdrBytes+2))
+	}
+	accepted, detail := false, ""
+	aDone, bDone := false, false
+	bErrs := 0
+	r.Go("victim", func() {
+		defer func() { aDone = true }()
+		seg, err := codec.DecodeSegment(&yieldingReader{r: r, data: alt, cuts: cuts})
+		r.Yield("victim.decoded")
+		if err == nil || seg != nil {
+			accepted = true
+			detail = fmt.Sprintf("err=%v segment=%v", err, seg != nil)
+		}
+	})
+	r.Go("other", func() {
+		defer func() { bDone = true }()
+		for _, o := range others {
+			_, err := codec.DecodeSegment(&yieldingReader{r: r, data: o.wire})
+			r.Yield("other.decoded")
+			if err != nil {
+				bErrs++
+			}
+		}
+	})
+	if !r.Drive() || !aDone || !bDone {
+		r.Violate(P, "liveness", "shared-stuck", "decoding on a shared segment codec did not finish")
+		return
+	}
+	r.Nontrivial = r.switches > 2
+	if accepted {
+		r.Violate(P, "rejected", fmt.Sprintf("shared-codec-accepted:lz4=%v", lz4On), "a segment altered in transit (%s) and delivered in pieces was ACCEPTED by a codec instance that another task used for intact segments in the meantime: %s", desc, detail)
+	}
+	if bErrs > 0 {
+		r.Probes["intact_segment_rejected_on_shared_codec"] += bErrs // C18's business, not judged here
+	}
+}
